@@ -278,4 +278,56 @@ theorem chunkRoots_eq (k : Nat) (hk : 1 ≤ k) : ∀ (f : Nat) (xs : List β), x
         simp only
         rw [calcLevel_eq _ (by simp)]
 
+/-- chunked root = sequential root (the proof of `parallel_eq_seq`). -/
+theorem GetMerkleRoot_eq (xs : List β) (ncpu : Nat) :
+    GetMerkleRoot nil H2 ncpu xs = getMerkleRoot nil H2 xs := by
+  unfold GetMerkleRoot
+  split
+  · rfl
+  · next h =>
+    have hn : 80 < xs.length := by omega
+    obtain ⟨k, hk, hstep, hle⟩ := stepOf_spec xs.length ncpu hn
+    simp only [hstep]
+    rw [chunkRoots_eq nil H2 k hk xs.length xs (Nat.le_refl _)]
+    exact (root_iterPair nil H2 k xs hle).symm
+
+/-- the (start, count, hash) triples produced by `childRoots`: every non-empty range carries its
+sequential root. -/
+def ChildOK (hs : List β) (c : Child β) : Prop :=
+  (hs.drop c.start).take c.count ≠ [] → c.hash = getMerkleRoot nil H2 ((hs.drop c.start).take c.count)
+
+theorem singleLayerRoot_ok [DecidableEq β] (zero : β) (ncpu : Nat) (hs : List β) (r : β)
+    (h : singleLayerRoot nil zero H2 ncpu hs = .ok r) (hne : hs ≠ []) : r = getMerkleRoot nil H2 hs := by
+  unfold singleLayerRoot at h
+  have : hs.isEmpty = false := by cases hs <;> simp_all
+  simp only [this, Bool.false_eq_true, if_false, GetMerkleRoot_eq] at h
+  split at h
+  · cases h
+  · cases h; rfl
+
+theorem childRoots_ok [DecidableEq β] (zero : β) (ncpu : Nat) (hs : List β) (total : Nat) :
+    ∀ (starts : List (Bytes × Nat)) (cs : List (Child β)),
+      childRoots nil zero H2 ncpu hs total starts = .ok cs → ∀ c ∈ cs, ChildOK nil H2 hs c
+  | [], cs, h => by simp [childRoots] at h; subst h; simp
+  | (t, s) :: rest, cs, h => by
+    simp only [childRoots] at h
+    split at h
+    · cases h
+    · next r hr =>
+      split at h
+      · cases h
+      · next cs' hcs' =>
+        cases h
+        intro c hc
+        rcases List.mem_cons.mp hc with rfl | hc
+        · intro hne; exact singleLayerRoot_ok nil H2 zero ncpu _ r hr hne
+        · exact childRoots_ok zero ncpu hs total rest cs' hcs' c hc
+
+theorem childStarts_head (e : Bytes) (rest : List Bytes) :
+    ∃ t tl, childStarts (e :: rest) 0 [] = (t, 0) :: tl := by
+  unfold childStarts
+  split
+  · exact ⟨_, _, by simp; exact ⟨rfl, rfl⟩⟩
+  · exact ⟨_, _, by simp; exact ⟨rfl, rfl⟩⟩
+
 end C18
